@@ -176,12 +176,15 @@ package cache
 //@   log writeBlock
 //@   modifies *
 
+// (C10: the dump only READS the stored message: when it is packed it is still exactly the
+// message that was stored — same records, same TTLs.)
 // the per-entry function of writeDump: an entry whose cache expiry is before `now` is skipped;
 // otherwise exactly one CachedEntry is appended to the current block, with ALL five fields taken
 // from the cache entry: key, packed message, cache expiry, message expiry and stored time.
-//@ func (c *Cache) writeDump$2 [C19]
+//@ func (c *Cache) writeDump$2 [C19, C10]
 //@   requires v != nil && block != nil
 //@   modifies *
+//@   ensures[C10] calls(msgPack) == 1 ==> atcall(msgPack, 0, v.resp == old(v.resp) && (forall s range 3, i int :: inSec(v.resp, s, i) ==> sec(v.resp, s)[i] == old(sec(v.resp, s)[i]) && hdrAt(v.resp, s, i).Ttl == old(hdrAt(v.resp, s, i).Ttl)))
 //@   ensures cacheExpirationTime.ns < now.ns ==> result == nil && calls(msgPack) == 0 && len(block.Entries) == old(len(block.Entries))
 //@   ensures !(cacheExpirationTime.ns < now.ns) ==> calls(msgPack) == 1 && arg(msgPack, 0, 0) == old(v.resp)
 //@   ensures !(cacheExpirationTime.ns < now.ns) && ret(msgPack, 0, 1) != nil ==> result != nil && calls(writeBlock) == 0
